@@ -41,7 +41,7 @@ Proof. apply t_le_spec. unfold tleP. lia. Qed.
 Definition sane_sec (s : Z) : Prop := (- 2 ^ 62 <= s <= 2 ^ 62)%Z.
 Definition sane_ns (n : Z) : Prop := (- 2 ^ 31 <= n < 2 ^ 31)%Z.
 
-Lemma go_unix_sane s n : sane_sec s -> sane_ns n ->
+Lemma go_unix_wide s n : sane_sec s -> sane_ns n ->
   go_unix s n = mkT (s + n / nsPerSec + unixToInternal) (n mod nsPerSec).
 Proof.
   unfold sane_sec, sane_ns, go_unix, nsPerSec, unixToInternal. intros Hs Hn.
@@ -56,7 +56,7 @@ Qed.
 Lemma t_le_tns s n s' n' : sane_sec s -> sane_ns n -> sane_sec s' -> sane_ns n' ->
   t_le (go_unix s n) (go_unix s' n') = (tns s n <=? tns s' n')%Z.
 Proof.
-  intros Hs Hn Hs' Hn'. rewrite !go_unix_sane by assumption.
+  intros Hs Hn Hs' Hn'. rewrite !go_unix_wide by assumption.
   apply eq_true_iff_eq. rewrite t_le_spec, Z.leb_le. unfold tleP, tns, nsPerSec. cbn [g_ext g_ns].
   Z.div_mod_to_equations. lia.
 Qed.
